@@ -101,6 +101,23 @@ class X(Op):
         return out
 
 
+    def lin(self, arr, I, ctx):
+        """value mode (ctx['xm'] = exact midpoint of interval I): re-expansion of x^n p(x) about the midpoint"""
+        import math
+        xm = ctx.get("xm")
+        if xm is None:
+            return None
+        n = self.n
+        out = []
+        for q in range(len(arr) + n):
+            acc = {}
+            for k in range(n + 1):
+                if 0 <= q - k < len(arr):
+                    acc = _ladd(acc, _lscale(arr[q - k], math.comb(n, k) * xm ** (n - k)))
+            out.append(acc)
+        return out
+
+
 class Dn(Op):
     def __init__(self, n):
         self.n = n
@@ -171,8 +188,8 @@ class Sub(Add):  # same dependence structure, opposite sign of the second term
 class Scal(Op):
     """multiplication by a scalar: atom ('k',) for run-time scalars, no dependence for literals"""
 
-    def __init__(self, a, atom=True, value=None):
-        self.a, self.atom, self.value = a, atom, value
+    def __init__(self, a, atom=True, value=None, div=False):
+        self.a, self.atom, self.value, self.div = a, atom, value, div
 
     def _atom(self):
         return ("k",) if self.atom is True else self.atom
@@ -188,10 +205,18 @@ class Scal(Op):
         return [_mmul(m, self._atom()) for m in inner]
 
     def lin(self, arr, I, ctx):
-        if self.atom or self.value is None:
+        if self.atom:
+            # value mode: the run-time scalar has an exact value (per atom when an expression has several scalars)
+            k = (ctx.get("kvals") or {}).get(self._atom(), ctx.get("k"))
+            if k is None:
+                return None
+            c = 1 / k if self.div else k
+        elif self.value is None:
             return None
+        else:
+            c = self.value
         inner = self.a.lin(arr, I, ctx)
-        return None if inner is None else [_lscale(x, self.value) for x in inner]
+        return None if inner is None else [_lscale(x, c) for x in inner]
 
 
 def Const(atom=True, value=None):
@@ -232,12 +257,32 @@ class Fac(Op):
             out.append(frozenset(m))
         return out
 
+    def lin(self, arr, I, ctx):
+        """value mode (ctx['vval'] = {interval: exact coefficients of the factor}): Cauchy product with the factor's piece"""
+        vv = ctx.get("vval")
+        if vv is None:
+            return None
+        name, order, (s_, e_) = ctx["v"]
+        size = len(arr) + order
+        piece = vv.get(I) if (s_ <= I and I + 1 < e_) else None
+        out = []
+        for p in range(size):
+            acc = {}
+            if piece is not None:
+                for i in range(len(arr)):
+                    j = p - i
+                    if 0 <= j <= order and piece[j] != 0:
+                        acc = _ladd(acc, _lscale(arr[i], piece[j]))
+            out.append(acc)
+        return out
+
 
 def _in_mono(name, I, order):
     return [frozenset([(("c", name, I, j),)]) for j in range(order + 1)]
 
 
 from fractions import Fraction as _Fr
+
 OP_CASES = {
     # name: (spec, needs scalar c, factor order or None, properties it serves)
     "op_id": (Id(), False, None),
@@ -260,7 +305,7 @@ OP_CASES = {
     "op_prodsum": (Mul(Add(X(1), Dn(1)), Sub(X(2), Id())), False, None),
     "op_cx": (Scal(X(1)), True, None),
     "op_xc": (Scal(X(1)), True, None),
-    "op_xdivc": (Scal(X(1)), True, None),
+    "op_xdivc": (Scal(X(1), div=True), True, None),
     "op_xplusc": (Add(X(1), Const()), True, None),
     "op_cplusx": (Add(Const(), X(1)), True, None),
     "op_xminusc": (Sub(X(1), Const()), True, None),
@@ -269,7 +314,14 @@ OP_CASES = {
     "op_int2d": (Scal(Dn(1), False, _Fr(2)), False, None),
     "op_ddiv2": (Scal(Dn(1), False, _Fr(1, 2)), False, None),
     "op_dplus1": (Add(Dn(1), Const(False, _Fr(1))), False, None),
-    "op_nested": (Sub(Scal(Scal(Add(Sub(Mul(X(2), Dn(1)), Dn(3)), Const()))), Scal(X(1), False, _Fr(2))), True, None),
+    "op_nested": (Sub(Scal(Scal(Add(Sub(Mul(X(2), Dn(1)), Dn(3)), Const())), div=True), Scal(X(1), False, _Fr(2))), True,
+                  None),
+    "op_negdiv": (Scal(Scal(X(1), div=True), False, _Fr(-1)), True, None),
+    "op_negmul": (Scal(Scal(X(1)), False, _Fr(-1)), True, None),
+    "op_divdiv": (Scal(Scal(X(1), div=True), div=True), True, None),
+    "op_divsum": (Add(Scal(X(1), div=True), Dn(1)), True, None),
+    "op_ddivprod": (Mul(Dn(1), Scal(X(2), div=True)), True, None),
+    "op_intdiv": (Sub(Scal(X(1), False, _Fr(1, 4)), Dn(1)), False, None),
     "op_fac": (Fac(), False, 1),
     "op_fac0": (Fac(), False, 0),
     "op_facd": (Mul(Fac(), Dn(1)), False, 1),
@@ -285,6 +337,9 @@ BLAME = [  # case name prefix -> library function whose framing the case mostly 
     ("op_dfac", "bspline::operators::SplineOperator::transform"),
     ("op_c", "bspline::operators::ScalarMultiplication::transform"),
     ("op_neg", "bspline::operators::ScalarMultiplication::transform"),
+    ("op_div", "bspline::operators::ScalarMultiplication::transform"),
+    ("op_ddivprod", "bspline::operators::ScalarMultiplication::transform"),
+    ("op_intdiv", "bspline::operators::ScalarMultiplication::transform"),
     ("op_int", "bspline::operators::ScalarMultiplication::transform"),
     ("op_sum", "bspline::operators::OperatorSum::transform"),
     ("op_dif", "bspline::operators::OperatorSum::transform"),
@@ -689,7 +744,7 @@ def _lin_of(o):
 
 
 def kernel_suite(chk, w, rule, orders=(0, 1, 2, 3), order_pairs=((1, 1), (2, 1), (0, 3), (2, 2)), ns=None, fixed=True,
-                 spacings=(1, 2, 3, 5, 7, 11), parts=("lf", "eval", "bf"), nmax=None):
+                 spacings=(1, 2, 3, 5, 7, 11), parts=("lf", "eval", "bf"), nmax=None, cases=None):
     """Exact affine forms (rational weights computed from the representative grid) of
        * Spline::operator()(x):  sum_p a_p(I) (x - xm_I)^p            for x inside interval I,
        * LinearForm{}(a):        sum_I sum_{p even} a_p(I) 2 h_I^{p+1} / (p+1),
@@ -749,6 +804,152 @@ def kernel_suite(chk, w, rule, orders=(0, 1, 2, 3), order_pairs=((1, 1), (2, 1),
                             cs.expect(fe, "a(x) = sum_p a_p(I) (x - midpoint_I)^p for x in interval I (exact weights)",
                                       dict(case, interval=I, x=str(x)), o, got == want,
                                       "(got %s, specified %s)" % (_fmt_w(got), _fmt_w(want)))
+        # ---- the named operator expressions as exact linear maps (scalar c and the factor's coefficients exact)
+        if "ops" in parts:
+            from .r_reg_spl import spline_view
+            for name in sorted(cases or OP_CASES):
+                spec, need_c, vorder = OP_CASES[name]
+                for A in orders:
+                    f = _case_fn(w, name, A)
+                    gl = _grids(w, n, spacings[:4], offsets=(0, 1, 5, 6), tensor=(n == 2))
+                    for gi, (xs, grid) in enumerate(gl):
+                        if n > 2 and gi % 3:
+                            continue
+                        for kv in ((_Fr(3), _Fr(-5, 2)) if need_c else (None,)):
+                            if kv is not None and kv != _Fr(3) and gi % 4:
+                                continue
+                            for wv in (([(0, n)] if n == 2 else [(0, n), (0, n - 1), (1, n)]) if vorder is not None else [None]):
+                                a = w.spline_on("a", A, grid, 0, n)
+                                args = [box(a)]
+                                ctx = {}
+                                if vorder is not None:
+                                    vv = {I: [_Fr(2 * I + 3 + 5 * j) for j in range(vorder + 1)] for I in range(wv[0], wv[1] - 1)}
+                                    cv = Vec([Arr([Sc(vv[I][j], frozenset([("c", "v", I, j)])) for j in range(vorder + 1)])
+                                              for I in range(wv[0], wv[1] - 1)])
+                                    v = w.need_spline(vorder, w.need_support(grid, *wv), cv)
+                                    args.append(box(v))
+                                    ctx.update(v=("v", vorder, wv), vval=vv)
+                                if need_c:
+                                    args.append(box(Sc(kv, frozenset([("k",)]))))
+                                    ctx["k"] = kv
+                                o = w.call(f, None, args)
+                                ok, why = False, repr(o)
+                                if o.kind == "val" and isinstance(val(o.v), Obj):
+                                    view = spline_view(w, val(o.v))
+                                    ok, why = view is not None, "result not observable"
+                                    for I in (range(0, n - 1) if ok else ()):
+                                        arr = view[1].get(I)
+                                        wantl = spec.lin([{("c", "a", I, j): _Fr(1)} for j in range(A + 1)], I,
+                                                         dict(ctx, xm=(xs[I] + xs[I + 1]) / 2))
+                                        if wantl is None:
+                                            ok, why = True, "(no value specification for this expression)"
+                                            break
+                                        if arr is None:
+                                            ok, why = False, "interval %d missing in the result" % I
+                                            break
+                                        for q in range(max(len(arr), len(wantl))):
+                                            wq = {k_: v_ for k_, v_ in (wantl[q] if q < len(wantl) else {}).items() if v_ != 0}
+                                            x = arr[q] if q < len(arr) else None
+                                            got = {} if x is None else (
+                                                {k_: v_ for k_, v_ in (x.lin or {}).items() if v_ != 0 and k_ is not None}
+                                                if isinstance(x, Sc) and x.lin is not None else None)
+                                            if got != wq:
+                                                ok, why = False, "coefficient %d of interval %d is %s, specified %s" % (
+                                                    q, I, _fmt_w(got), _fmt_w(wq))
+                                                break
+                                        if not ok:
+                                            break
+                                case = dict(case=name, order=A, points=[str(x) for x in xs])
+                                if kv is not None:
+                                    case["c"] = str(kv)
+                                if wv is not None:
+                                    case["factor"] = wv
+                                cs.expect(blame(w, name, f), "%s: the result is the exact linear image of the operand the spelled "
+                                          "expression denotes (re-expansion weights, factorial factors, scalar, factor's "
+                                          "piece)" % name, case, o, ok, "(%s)" % why)
+        # ---- linear / bilinear forms over operator expressions: kernel weights applied to the exact operator images
+        def exact_factor(grid, vorder, wv, salt=0):
+            vv = {I: [_Fr(2 * I + 3 + 5 * j + salt) for j in range(vorder + 1)] for I in range(wv[0], wv[1] - 1)}
+            cv = Vec([Arr([Sc(vv[I][j], frozenset([("c", "v", I, j)])) for j in range(vorder + 1)])
+                      for I in range(wv[0], wv[1] - 1)])
+            return w.need_spline(vorder, w.need_support(grid, *wv), cv), vv
+
+        if "lfops" in parts:
+            for name, (op, vorder) in sorted(LF_CASES.items()):
+                for A in orders:
+                    f = _case_fn(w, name, A)
+                    for gi, (xs, grid) in enumerate(_grids(w, n, spacings[:A + 5 if A + 5 <= len(spacings) else len(spacings)],
+                                                           offsets=(0, 1, 5), tensor=(n == 2))):
+                        if n > 2 and gi % 3:
+                            continue
+                        for wv in (([(0, n)] if n == 2 else [(0, n), (0, n - 1), (1, n)]) if vorder is not None else [None]):
+                            a = w.spline_on("a", A, grid, 0, n)
+                            args, ctx = [box(a)], {}
+                            if vorder is not None:
+                                v, vv = exact_factor(grid, vorder, wv)
+                                args.append(box(v))
+                                ctx.update(v=("v", vorder, wv), vval=vv)
+                            o = w.call(f, None, args)
+                            want = {}
+                            for I in range(n - 1):
+                                h = (xs[I + 1] - xs[I]) / 2
+                                tp = op.lin([{("c", "a", I, j): _Fr(1)} for j in range(A + 1)], I,
+                                            dict(ctx, xm=(xs[I] + xs[I + 1]) / 2))
+                                for p_ in range(0, len(tp), 2):
+                                    want = _ladd(want, _lscale(tp[p_], 2 * h ** (p_ + 1) / (p_ + 1)))
+                            want = {k_: v_ for k_, v_ in want.items() if v_ != 0}
+                            got = _lin_of(o)
+                            case = dict(case=name, order=A, points=[str(x) for x in xs])
+                            if wv is not None:
+                                case["factor"] = wv
+                            cs.expect(blame(w, name, f), "%s: the value is the integral of the exact image of the operand "
+                                      "(kernel weights 2 h^(p+1)/(p+1) on the even powers of O a)" % name, case, o,
+                                      got == want, "(got %s, specified %s)" % (_fmt_w(got), _fmt_w(want)))
+        if "bfops" in parts:
+            for name, (o1, o2, vorder) in sorted(BF_CASES.items()):
+                for (A, B) in order_pairs:
+                    f = _case_fn(w, name, A, lambda f_: ("Spline<%s, %d>" % (T, B)) in f_.decl["params"][1]["type"])
+                    for gi, (xs, grid) in enumerate(_grids(w, n, spacings[:min(len(spacings), A + B + 4)], offsets=(0, 1, 5),
+                                                           tensor=(n == 2))):
+                        if (n > 2 and gi % 3) or (n == 2 and gi % 2 and A + B > 3):
+                            continue
+                        for salt in (0, 7):
+                            for wv in (([(0, n)] if n == 2 else [(0, n), (1, n)]) if vorder is not None else [None]):
+                                a = w.spline_on("a", A, grid, 0, n)
+                                bb = {I: [_Fr(3 * I + 2 + 7 * j + salt) for j in range(B + 1)] for I in range(n - 1)}
+                                cb = Vec([Arr([Sc(bb[I][j], frozenset([("c", "b", I, j)])) for j in range(B + 1)])
+                                          for I in range(n - 1)])
+                                b = w.need_spline(B, w.need_support(grid, 0, n), cb)
+                                args, ctx = [box(a), box(b)], {}
+                                if name == "bf_aff":
+                                    kv = {("k",): _Fr(3), ("k2",): _Fr(-5, 2)}
+                                    args += [box(Sc(kv[("k",)], frozenset([("k",)]))), box(Sc(kv[("k2",)], frozenset([("k2",)])))]
+                                    ctx["kvals"] = kv
+                                if vorder is not None:
+                                    v, vv = exact_factor(grid, vorder, wv, salt)
+                                    args.append(box(v))
+                                    ctx.update(v=("v", vorder, wv), vval=vv)
+                                o = w.call(f, None, args)
+                                want = {}
+                                for I in range(n - 1):
+                                    h = (xs[I + 1] - xs[I]) / 2
+                                    c2 = dict(ctx, xm=(xs[I] + xs[I + 1]) / 2)
+                                    ta = o1.lin([{("c", "a", I, j): _Fr(1)} for j in range(A + 1)], I, c2)
+                                    tb = o2.lin([{None: bb[I][j]} for j in range(B + 1)], I, c2)
+                                    for i in range(len(ta)):
+                                        for j in range(len(tb)):
+                                            if (i + j) % 2 == 0:
+                                                q = tb[j].get(None, 0)
+                                                if q != 0:
+                                                    want = _ladd(want, _lscale(ta[i], q * 2 * h ** (i + j + 1) / (i + j + 1)))
+                                want = {k_: v_ for k_, v_ in want.items() if v_ != 0}
+                                got = _lin_of(o)
+                                case = dict(case=name, orders=(A, B), points=[str(x) for x in xs], b_salt=salt)
+                                if wv is not None:
+                                    case["factor"] = wv
+                                cs.expect(blame(w, name, f), "%s: the value is the integral of the product of the exact images "
+                                          "(O1 a)(O2 b), b with exact coefficients" % name, case, o, got == want,
+                                          "(got %s, specified %s)" % (_fmt_w(got), _fmt_w(want)))
         # ---- a * b with b running over unit coefficient vectors: r_k(I) = sum_j a_j(I) b_(k-j)(I), weights exactly 1
         for (A, B) in (order_pairs if "mul" in parts else ()):
             clsA = w.spline_cls(A)
